@@ -29,6 +29,9 @@ Definition seg_sim (a b : seg) : Prop := seg_content b = seg_content a /\ seg_ty
 (* the tokens of the second vector with the formatting data of the first *)
 Definition relaid (l l' : list ftoken) : list ftoken := map (fun pq : ftoken * ftoken => (fst (snd pq), snd (fst pq))) (combine l l').
 
+(* same newlines_before; same spaces_before where TokenSpacing reads them *)
+Definition lay_similar (segs segs' : list seg) : Prop := layout_similar (relaid (fm_l0 segs) (fm_l0 segs')) (fm_l0 segs').
+
 Lemma sim_seg_tys segs segs' : Forall2 seg_sim segs segs' -> map seg_ty segs' = map seg_ty segs.
 Proof. induction 1 as [|a b r r' (_ & Ht) _ IH]; [reflexivity|]. cbn [map]. rewrite Ht, IH. reflexivity. Qed.
 
@@ -43,9 +46,7 @@ Variables segs segs' : list seg.
 Hypothesis Hsim : Forall2 seg_sim segs segs'.
 Hypothesis Hnoasm : no_asm (map seg_ty segs).
 Hypothesis Hunmarked : forall m, In m (fm_marks segs) -> m = false.
-(* same newlines_before; same spaces_before where TokenSpacing reads them *)
-Definition lay_similar : Prop := layout_similar (relaid (fm_l0 segs) (fm_l0 segs')) (fm_l0 segs').
-Hypothesis Hlay : lay_similar.
+Hypothesis Hlay : lay_similar segs segs'.
 
 Lemma rl_tys : map seg_ty segs' = map seg_ty segs.
 Proof. exact (sim_seg_tys segs segs' Hsim). Qed.
